@@ -191,6 +191,7 @@ def drive(case, monitors, learner_cls=None, step_limit=10 ** 7, wall_s=600, use_
     queries = collections.Counter(case.get("queries") or [])
     midq = collections.Counter(case.get("midqueries") or [])
     P = part_cls or C.make_part_class(case["part"], hub)
+    hub.part_cls = P
     old = signal.signal(signal.SIGALRM, _alarm)
     wall_s = float(os.environ.get("PYXABMON_WALL_S") or wall_s)  # (test knob for the retry pass of the runner)
     signal.alarm(int(wall_s * float(os.environ.get("PYXABMON_WALL_SCALE", "1") or 1)))
